@@ -159,11 +159,23 @@ func addScrubFieldsToSelectionSet(ctx *PlanningContext, selectionSet ast.Selecti
 func addSelectionSetToSanitizedResult(s ast.SelectionSet, ss ...ast.Selection) ast.SelectionSet {
 	ss = lo.Filter(ss, func(sel ast.Selection, i int) bool {
 		f, ok := sel.(*ast.Field)
-		if ok && selectionSetHasFieldNamed(s, f.Alias) {
+		if ok && selectionSetHasFieldAliased(s, f.Alias) {
 			return false
 		}
 		return true
 
 	})
 	return append(s, ss...)
+}
+
+// selectionSetHasFieldAliased reports whether a field with the given response key (alias) is
+// already present at the top level of the selection set.
+func selectionSetHasFieldAliased(ss []ast.Selection, alias string) bool {
+	for _, selection := range ss {
+		field, ok := selection.(*ast.Field)
+		if ok && field.Alias == alias {
+			return true
+		}
+	}
+	return false
 }
